@@ -7,6 +7,8 @@ import (
 	"bytes"
 	"encoding/json"
 	"fmt"
+	mbase "github.com/multiformats/go-multibase"
+	"github.com/multiformats/go-varint"
 	"math"
 	"math/rand"
 	"os"
@@ -796,6 +798,13 @@ func envelopeReplay(prop string) replayFn {
 				sigParsed = append(sigParsed, c)
 			}
 		}
+		// an issuer DID of a key type that cannot sign (X25519, multicodec 0xec) around the bytes of an Ed25519 key, with a
+		// genuine EdDSA signature of that key: not "the public key contained in the token's issuer DID" of a supported type
+		if prop == "C06" && sameAlg {
+			if err := x25519Issuer(rep); err != nil {
+				return err
+			}
+		}
 		// signature verification is a different code path per key algorithm: the behaviours that edit the
 		// signature are replayed with an honest issuer of every algorithm did.Generate* offers
 		if prop == "C06" && sameAlg {
@@ -971,4 +980,69 @@ func init() {
 		}
 		return nil
 	}
+}
+
+func x25519Issuer(rep *Report) error {
+	w := newWorld(envSeed()+5, []string{"ed25519"})
+	k, err := w.principal("K")
+	if err != nil {
+		return err
+	}
+	raw, err := k.priv.GetPublic().Raw()
+	if err != nil {
+		return err
+	}
+	for _, code := range []uint64{0xec, 0xeb, 0xee, 0x1300} {
+		body, err := mbase.Encode(mbase.Base58BTC, append(varint.ToUvarint(code), raw...))
+		if err != nil {
+			return err
+		}
+		fake := "did:key:" + body
+		for _, typ := range []string{"dlg", "inv"} {
+			var sealed []byte
+			if typ == "dlg" {
+				d, err := delegation.Root(k.id, k.id, command.MustParse("/a"), policy.Policy{})
+				if err != nil {
+					return err
+				}
+				sealed, _, err = d.ToSealed(k.priv)
+				if err != nil {
+					return err
+				}
+			} else {
+				v, err := invocation.New(k.id, k.id, command.MustParse("/a"), nil)
+				if err != nil {
+					return err
+				}
+				sealed, _, err = v.ToSealed(k.priv)
+				if err != nil {
+					return err
+				}
+			}
+			parts, err := partsOf(sealed, typ)
+			if err != nil {
+				return err
+			}
+			parts.payload["iss"] = basicnode.NewString(fake)
+			if err := parts.signBy(k); err != nil {
+				return err
+			}
+			node := parts.node()
+			cb, err := ipld.Encode(node, dagcbor.Encode)
+			if err != nil {
+				return err
+			}
+			jb, _ := ipld.Encode(node, dagjson.Encode)
+			rep.Evaluations++
+			for _, fam := range []string{"generic", typ} {
+				for _, r := range decodeAll(fam, node, cb, jb) {
+					if r.err == nil {
+						rep.violation(map[string]any{"issuer": fake, "multicodec": fmt.Sprintf("0x%x", code), "type": typ}, "rejected: the issuer is not a supported signing key", r.name+" returned a token",
+							"a token whose issuer DID carries an unsupported key type was accepted (its bytes verified as another key type)")
+					}
+				}
+			}
+		}
+	}
+	return nil
 }
